@@ -511,7 +511,7 @@ Proc(e) ==
                       \* the stored bucket count never changes once the map exists (the value chosen at creation
                       \* from the parameter is design: BucketsFromParam, reported as drift below)
                       (IF ~IsNone(P) /\ P.n # S.n THEN {"C07.n"} ELSE {})
-                one == ~IsNone(P) /\ sinc[1] = 1
+                one == ~IsNone(P) /\ sinc[1] = 1 /\ sinc[2] # 0     \* (a bulk call counts as one update of "key 0": no step conjuncts)
                 stepf == IF one THEN StepFails(P, DP, S, D, sinc[2]) ELSE {}
                 pk0 == Get0(aux.peak, m, NoPeak)
                 \* the peak of simultaneously used slots is only known while every update is followed by a
